@@ -18,6 +18,7 @@
   (`step0 .connect`, `body … .user`, `finalize` -- `Counters.body_keeps` shows no other handler does).
 -/
 import AioftpModel.Lemmas.Counters
+import AioftpModel.Properties.C12
 
 namespace C10
 open Model Model.Session Model.Counters Py Generated
@@ -498,5 +499,16 @@ example :
 example : (acquire (some 0)).getD 0 + (0 + 1) ≠ 0 + 0 := by decide
 example : acquireE (some 0) = .error .tooManyAcquires ∧ releaseE (some 2) (some 2) = .error .tooManyReleases ∧
     acquireE (some 1) = .ok (some 0) ∧ releaseE (some 2) (some 1) = .ok (some 2) := ⟨rfl, rfl, rfl, rfl⟩
+
+/-! ### the place where both slots are given back is always reached -/
+
+/-- the slots are released in the dispatcher's `finally`; a session-ending command first waits in
+    `response_queue.join()`.  As the source is now that wait cannot last for ever once the reply writer is gone
+    (peer vanished, write timed out) - for every schedule of queued, written and failed replies
+    (`C12.join_cannot_hang`; the three facts about `response_writer` are obligations of this file too). -/
+theorem release_is_reached (evs : List Model.ReplyQueue.Ev)
+    (hd : (Model.ReplyQueue.run Model.ReplyQueue.facts Model.ReplyQueue.init evs).writerAlive = false) :
+    (Model.ReplyQueue.run Model.ReplyQueue.facts Model.ReplyQueue.init evs).joinReturns :=
+  (C12.join_cannot_hang evs).2 hd
 
 end C10
